@@ -73,8 +73,10 @@ LITERALS = [("'spam'", 'spam'), ('"spam"', 'spam'), ("'APPLES'", 'APPLES'), ('"s
             ('0', '0'), ('-3', '-3'), ('42', '42'), ('1.5', '1.5'), ('2.0', '2.0'), ('1.50', '1.5'), ('-0.5', '-0.5'),
             ('True', 'True'), ('False', 'False'), ('None', 'None'), ("'True'", 'True'), ("'None'", 'None'), ("''", '')]
 RHS = ['s', 'APPLES', '1', 'True', 'None', '1.5', 'spam', '%(t1)s', '%(t2)s', 'p%(t1)s', '%(t1)s%(t2)s', "['s']",
-       "{'a':1}", '-3', '2.0', '0', 'False', '[]', '%(t3)s']
-PH = re.compile(r'%\((\w+)\)s')
+       "{'a':1}", '-3', '2.0', '0', 'False', '[]', '%(t3)s',
+       # placeholder keys that are not identifiers: a target key is any string
+       '%(t.1)s', '%(t-2)s', 'p%(os:t)s', '%(target.user.id)s', '%(t.1)s%(t1)s']
+PH = re.compile(r'%\(([^)]+)\)s')
 
 
 def gen_case(rnd):
@@ -83,7 +85,7 @@ def gen_case(rnd):
         creds = {'a': creds}
     if rnd.random() < 0.3:
         creds['roles'] = []
-    target = {k: rnd.choice(SCAL) for k in rnd.sample(['t1', 't2'], rnd.randint(0, 2))}
+    target = {k: rnd.choice(SCAL) for k in rnd.sample(['t1', 't2', 't.1', 't-2', 'os:t', 'target.user.id'], rnd.randint(0, 4))}
     rhs = rnd.choice(RHS)
     if rnd.random() < 0.3:
         lhs, val = rnd.choice(LITERALS)
@@ -182,7 +184,7 @@ def check_case(ctx, real, case):
     if want == UNC:
         ctx.unconstrained('list-in-list-with-path-left')
         if isinstance(got, str):
-            ctx.violation('path-walk-raises' if got == 'EXC:TypeError' else 'literal-attempt-raises', case, {'rule': rule, 'creds': case['creds'], 'target': case['target'],
+            ctx.violation('path-walk-raises' if got == 'EXC:TypeError' else 'missing-target-key-raises' if got == 'EXC:KeyError' else 'literal-attempt-raises', case, {'rule': rule, 'creds': case['creds'], 'target': case['target'],
                                                      'observed': got, 'expected': 'a decision (either one)'})
         return
     if got != want:
